@@ -27,6 +27,10 @@ CLAIMED = {
          "Two one-step necessary conditions of the liveness claim (level other): nothing stored can be unreadable by the witness's own reader; no ordering class of (stored, submitted) size is a dead end for an honest request. K1 (stored size 0 < submitted) is a known finding. Histories are not explored.", "5/C08"),
  "C09": ("exhaustive decision table over a finite order abstraction (weak orderings x predicate valuations) of the path summaries",
          "Decides that every abstract cell (known, signature, stored, ordering of 0/old/stored/submitted sizes, rootEq, proofOK, proofEmpty) is answered by exactly one fault-free path with the outcome the first-match table prescribes; checks the abstraction's soundness premise (sizes only compared). The proof verdict is an uninterpreted boolean tied to VerifyConsistency's contract.", "5/C09"),
+ "C10": ("composition of path summaries (Update outcome classes x handleUpdate/ServeHTTP paths) against the protocol status table",
+         "Decides the endpoint's verdict-to-status mapping composed with the real Update's outcome classes, limiter-first, exactly one documented status per path, 200-body provenance and the pre-checks. Transport, crypto validity of the cosignature and the limiter's rate are not decided.", "5/C10"),
+ "C11": ("sibling agreement (writer vs reader) over path summaries + refusal-totality + disallowed-call query",
+         "Narrow structural claim (level other): same base64 object/terminator/prefix in writers and readers, error returns carry nothing else, success only after the blank separator, strict whole-string integer parsing, order-preserving element construction. Round-trip equality of values is not decided (O1).", "5/C11"),
  "C20": ("path-sensitive effect summaries: outcome-to-counter table over all paths of Update",
          "Decides exactly-once increments per outcome with counters identified by metric name, label provenance, single assignment in Once.Do, constructors initialise metrics.", "5/C20"),
 }
